@@ -105,6 +105,9 @@ PROPS["C12"]["props"] = ["Props/C12.v"]
 PROPS["C15"]["props"] = ["Props/C15.v", "Props/C15a.v", "Props/C15b.v", "Props/C15c.v"]
 PROPS["C01"]["props"] = PROPS["C01"]["props"] + ["Props/C01b.v"]
 PROPS["C09"]["props"] = PROPS["C09"]["props"] + ["Props/C09b.v"]
+PROPS["C01"]["props"] = PROPS["C01"]["props"] + ["Props/C01d.v"]
+PROPS["C09"]["props"] = PROPS["C09"]["props"] + ["Props/C09d.v"]
+PROPS["C15"]["props"] = PROPS["C15"]["props"] + ["Props/C15d.v"]
 PROPS["C15"]["run"] = ["Run/EnumRun.v", "Run/LexRun.v"]
 PROPS["C15"]["tables"] = ["T1", "T2", "T3", "T4", "T5"]
 
